@@ -91,6 +91,43 @@ fn feature_hook(feature: &'static str) -> bool {
     }
 }
 
+pub fn scratch_root(pid: i32) -> String {
+    format!("/dev/shm/pasfmt-sim-{pid}")
+}
+
+/// Placeholders for path discovery: empty real files named like the simulated ones.
+fn make_real_tree(sc: &Scenario) -> std::io::Result<()> {
+    // SAFETY: getpid has no preconditions.
+    let root = scratch_root(unsafe { libc::getpid() });
+    let _ = std::fs::remove_dir_all(&root);
+    std::fs::create_dir_all(&root)?;
+    for f in &sc.files {
+        if !f.exists {
+            continue;
+        }
+        let p = std::path::Path::new(&root).join(&f.path);
+        if let Some(parent) = p.parent() {
+            std::fs::create_dir_all(parent)?;
+        }
+        std::fs::write(&p, b"")?;
+    }
+    for (path, text) in &sc.real_files {
+        let p = std::path::Path::new(&root).join(path);
+        if let Some(parent) = p.parent() {
+            std::fs::create_dir_all(parent)?;
+        }
+        std::fs::write(&p, text)?;
+    }
+    std::env::set_current_dir(&root)
+}
+
+pub fn remove_scratch(pid: i32) {
+    let root = scratch_root(pid);
+    if std::path::Path::new(&root).exists() {
+        let _ = std::fs::remove_dir_all(&root);
+    }
+}
+
 fn child_main(sc: &Scenario, fd: i32) -> ! {
     // SAFETY: straightforward libc calls in a single-threaded, freshly forked process.
     unsafe {
@@ -104,6 +141,13 @@ fn child_main(sc: &Scenario, fd: i32) -> ! {
         if devnull >= 0 {
             libc::dup2(devnull, 0);
             libc::dup2(devnull, 1);
+        }
+    }
+    if sc.real_tree {
+        if let Err(e) = make_real_tree(sc) {
+            let mut r = RunResult::broken(format!("cannot create scratch tree: {e}"));
+            r.exit = Exit::Broken(format!("cannot create scratch tree: {e}"));
+            send_report_and_exit(fd, &r);
         }
     }
     let w: &'static SimWorld = Box::leak(Box::new(SimWorld::new(sc, fd)));
@@ -232,6 +276,9 @@ fn run_scenario_inner(sc: &Scenario, watchdog: Duration) -> RunResult {
                 continue;
             }
             break;
+        }
+        if sc.real_tree {
+            remove_scratch(pid);
         }
         if timed_out {
             let mut r = RunResult::broken("watchdog".into());
